@@ -387,10 +387,17 @@ impl Xot {
         if self.previous_sibling(new_sibling) == Some(reference_node) {
             return Ok(());
         }
-        self.remove_consolidate_text_nodes(
-            self.previous_sibling(new_sibling),
-            self.next_sibling(new_sibling),
-        );
+        let previous_node = self.previous_sibling(new_sibling);
+        let next_node = self.next_sibling(new_sibling);
+        let reference_node = if self.remove_consolidate_text_nodes(previous_node, next_node)
+            && next_node == Some(reference_node)
+        {
+            // the reference node was the text node following the moved node
+            // and has just been merged into the text node before it
+            previous_node.unwrap()
+        } else {
+            reference_node
+        };
         if self.add_consolidate_text_nodes(
             new_sibling,
             Some(reference_node),
